@@ -460,6 +460,10 @@ def _equality_kind(f: Func, c: ast.AST, p: bool, a: str, b: str) -> Tuple[bool, 
             def sub_of(x):
                 return x.value.id if isinstance(x, ast.Subscript) and isinstance(x.value, ast.Name) else None
             it = gen.generators[0].iter
+            if isinstance(it, ast.Name) and it.id not in (a, b):
+                ia = assignments_to(f, it.id)
+                if len(ia) == 1 and ia[0][2] is None:
+                    it = ia[0][1]
             it_ok = False
             if isinstance(it, ast.Call) and isinstance(it.func, ast.Attribute) and it.func.attr == "keys" and isinstance(it.func.value, ast.Name) and it.func.value.id in (a, b):
                 it_ok = True
